@@ -229,6 +229,10 @@ def run (j : Json) : Json := Id.run do
         let addT := fun (F : List String) (pts freshPts : AList String) =>
           if !F.contains "templates" && jKS pts != jKS freshPts then F ++ ["templates"] else F
         let F := addT F (parseView (jget is "post")).idx.pts (parseView (jget is "fresh")).idx.pts
+        -- so are the commodity formats (the statement itself: view = view of a fresh workspace)
+        let fmtJ := fun (v : View) => match v.formats with | some f => jKS f | none => Json.null
+        let F := if !F.contains "formats" &&
+            fmtJ (parseView (jget is "post")) != fmtJ (parseView (jget is "fresh")) then F ++ ["formats"] else F
         if !F.isEmpty then
           why := why ++ [s!"step {i}: view differs from a rebuild in {F}"]
           let fOf := fun (sm : Sim) => match sm.steps[i]? with
@@ -245,9 +249,7 @@ def run (j : Json) : Json := Id.run do
               tags := tags ++ ["template-loss"]
               cur := withT
           let residual := fOf cur
-          if residual == ["formats"] && formatConflict s.fs root then
-            tags := tags ++ ["formats-order"]
-          else if !residual.isEmpty then
+          if !residual.isEmpty then
             unexplained := true
           if tags.isEmpty then unexplained := true
           for t in tags do
